@@ -729,3 +729,31 @@ Definition run_C03 (v : val) : val :=
                                  vbool (spec_ok view_classifier regs rq res)]) reqs)])
     | _ => None
     end).
+
+(* the same with a history: each request is [after; request] and is answered from the first
+   [after] add_view calls only (the model has no lookup cache; C15 owns it) *)
+Definition run_C03i (v : val) : val :=
+  ret_or_bad (
+    match v with
+    | VL [extra; views; reqs] =>
+        olet extra := get_texts extra in
+        olet views := get_list_of get_args views in
+        olet reqs := get_list_of (fun e => match e with
+                                           | VL [VI k; r] => olet r := get_request r in Some (Z.to_nat k, r)
+                                           | _ => None end) reqs in
+        let names := pred_names ++ extra in
+        let oregs := regs_of names views in
+        Some (VL [VL (map (put_made oregs) oregs);
+                  VL (map (fun krq =>
+                             let rq := snd krq in
+                             let regs := somes (firstn (fst krq) oregs) in
+                             let R := register_all accept_order_default regs in
+                             let res := call_view R view_classifier rq in
+                             VL [put_result res;
+                                 put_tags (spec_winners view_classifier regs rq);
+                                 put_tags (winners_media view_classifier (effective regs) rq);
+                                 put_tags (winners_media view_classifier (live_regs regs) rq);
+                                 put_tags (winners_media view_classifier regs rq);
+                                 vbool (spec_ok view_classifier regs rq res)]) reqs)])
+    | _ => None
+    end).
